@@ -171,7 +171,10 @@ def leaf_words(tokens, out, where):
                 is_auto = len(kids) == 1 and kids[0].get("type") == "text" and url in (kids[0]["raw"], "mailto:" + kids[0]["raw"],
                                                                                          escape_url(kids[0]["raw"]), escape_url("mailto:" + kids[0]["raw"]))
                 if not is_auto:
-                    out.update(words(url))
+                    # the generated documents contain no "%" (side condition), so every %XX of a destination was written by escape_url for a character
+                    # of the source (">" becomes %3E): the words of the destination are those of its decoded form
+                    from urllib.parse import unquote
+                    out.update(words(unquote(url)))
                 out.update(words(attrs.get("title") or ""))
             continue
         if ty == "block_code":
